@@ -34,6 +34,19 @@ FLATTEN_OK = {
 }
 
 
+def _flattened_node(x):
+    """text of the existing node whose chain is extended at x, or None.  Two forms: in place  <node>.operands.append(new);
+    by construction  <anything>(<node>.operands + [new]) / [...] + <node>.operands"""
+    if isinstance(x, ast.Call) and isinstance(x.func, ast.Attribute) and x.func.attr in ("append", "extend", "insert") \
+            and isinstance(x.func.value, ast.Attribute) and x.func.value.attr == "operands":
+        return norm(x.func.value.value)
+    if isinstance(x, ast.BinOp) and isinstance(x.op, ast.Add):
+        for side in (x.left, x.right):
+            if isinstance(side, ast.Attribute) and side.attr == "operands":
+                return norm(side.value)
+    return None
+
+
 def rule_flattening_keeps_operator(ctx):
     """The grammar is left-recursive: `x OP y OP z` arrives as ((x OP y) OP z) and the visitor may keep ONE operand list per
     chain by appending z to the node built for (x OP y).  That is meaning-preserving only when that node carries the SAME
@@ -48,11 +61,10 @@ def rule_flattening_keeps_operator(ctx):
         if fi.module.name != PV:
             continue
         for x in body_walk(fi.node):
-            if not (isinstance(x, ast.Call) and isinstance(x.func, ast.Attribute) and x.func.attr in ("append", "extend", "insert")
-                    and isinstance(x.func.value, ast.Attribute) and x.func.value.attr == "operands"):
+            node_txt = _flattened_node(x)
+            if node_txt is None:
                 continue
             n += 1
-            node_txt = norm(x.func.value.value)
             tests = [norm(t) for t, pol, _ in guard_chain(x) if pol]
             same_op = any(("same_boolean_operator(" in t) or (node_txt + ".operator ==" in t) or ("== %s.operator" % node_txt in t)
                           or any(("isinstance(%s, %s" % (node_txt, cn)) in t for cn in (
@@ -79,6 +91,54 @@ def rule_flattening_keeps_operator(ctx):
         raise AnalysisError("fewer than 2 operand-flattening sites in the pattern visitor (%d): anchors lost" % n)
 
 
+def rule_nodes_built_by_constructors(ctx, rule_id="C10.operator-table"):
+    """_BooleanExpression.__init__ derives state from its operands (root_types: which object types can satisfy the expression)
+    and refuses an AND no single object type can satisfy.  Appending to `.operands` of an existing node from outside skips
+    both: `[(a:x=1 OR b:y=1 OR c:z=1) AND c:w=2]` is refused although valid (the OR node knows only the types of its first two
+    operands), `[a:x=1 AND a:y=2 AND b:z=3]` is accepted although its two-operand forms are refused.  Rule: outside the model
+    module nothing appends to the operands of a node whose class derives state from them; chains are extended by building
+    a new node from the old operands."""
+    run = ctx.run
+    prog = ctx.prog
+    R = rule_id
+    derived = set()
+    for cls in prog.classes.values():
+        if cls.module.name != "stix2.patterns":
+            continue
+        init = cls.methods.get("__init__")
+        if init is None:
+            continue
+        for lp in [x for x in body_walk(init.node) if isinstance(x, ast.For) and "operands" in norm(x.iter)]:
+            if any(isinstance(a_, (ast.Assign, ast.AugAssign)) and norm(a_.targets[0] if isinstance(a_, ast.Assign) else a_.target).startswith("self.")
+                   for a_ in ast.walk(lp)):
+                derived.add(cls)
+    if not derived:
+        raise AnalysisError("no pattern model class derives state from its operands any more (rule out of date)")
+    names = set()
+    for cls in prog.classes.values():
+        if cls.module.name == "stix2.patterns" and any(d in (cls.mro or []) for d in derived):
+            names.add(cls.name)
+    n = 0
+    for fi in sorted(prog.functions.values(), key=lambda f: f.id):
+        if fi.module.relpath.startswith("stix2/test") or fi.module.name == "stix2.patterns" or not fi.module.name.startswith(
+                ("stix2.pattern_visitor",)):
+            continue
+        for x in body_walk(fi.node):
+            if not (isinstance(x, ast.Call) and isinstance(x.func, ast.Attribute) and x.func.attr in ("append", "extend", "insert")
+                    and isinstance(x.func.value, ast.Attribute) and x.func.value.attr == "operands"):
+                continue
+            node_txt = norm(x.func.value.value)
+            tests = [norm(t) for t, pol, _ in guard_chain(x) if pol]
+            may_be = [nm for nm in sorted(names) if any(("isinstance(%s, %s" % (node_txt, nm)) in t for t in tests)]
+            n += 1
+            run.check(not may_be, R, key(fi.module.relpath, fi.qualname, "chains-extended-through-the-constructor"),
+                      "an operand is appended to an existing %s from outside its class: the constructor's derived state (root_types) "
+                      "is not updated and its satisfiability check is skipped for the third and later operands" % "/".join(may_be),
+                      file=fi.module.relpath, line=x.lineno, function=fi.qualname,
+                      expected="build a new node: <Class>(old.operands + [new operand])", found=short(x, 80))
+    return n
+
+
 def run(ctx):
     run = ctx.run
     run.explanation = (
@@ -97,6 +157,7 @@ def run(ctx):
     ctx.do(rule_not_aware)
     ctx.do(rule_operator_table)
     ctx.do(rule_flattening_keeps_operator)
+    ctx.do(rule_nodes_built_by_constructors)
     ctx.do(rule_printer_complete)
     ctx.do(rule_definite_init)
     ctx.do(rule_escape_order)
